@@ -29,14 +29,40 @@ def load_gen():
 def build_variants():
     gen = load_gen()
     labels = json.load(open(os.path.join(V, 'notes', 'triage', 'survey2_labels.json')))['items']
-    want = collections.defaultdict(list)
+    # labels are keyed by function + description; the line is only used to order several equal edits inside one function
+    # (fix commits made after the survey shift line numbers)
+    by_fd = collections.defaultdict(list)
     for it in labels:
-        want[(it['file'], it['qual'], it['line'], it['desc'])].append(it)
+        by_fd[(it['file'], it['qual'], it['desc'])].append(it)
+    for v in by_fd.values():
+        v.sort(key=lambda it: it['line'])
     out = []
     for fname in FILES:
         tree = ast.parse(open(os.path.join(SRC, fname)).read())
         base = ast.unparse(tree)
-        for qual, line, desc, ap in gen.mutants_for(tree, fname):
+        gens = list(gen.mutants_for(tree, fname))
+        gen_fd = collections.defaultdict(list)
+        for qual, line, desc, ap in gens:
+            gen_fd[(fname, qual, desc)].append(line)
+        want = collections.defaultdict(list)
+        shift_votes = collections.defaultdict(collections.Counter)       # function -> line shift since the survey
+        for k, lines in gen_fd.items():
+            labs = by_fd.get(k, [])
+            lines = sorted(lines)
+            if len(labs) == len(lines):
+                for ln, it in zip(lines, labs):
+                    want[(k[0], k[1], ln, k[2])].append(it)
+                    shift_votes[k[1]][ln - it['line']] += 1
+        for k, lines in gen_fd.items():
+            labs = by_fd.get(k, [])
+            if len(labs) != len(lines):
+                d = shift_votes[k[1]].most_common(1)[0][0] if shift_votes[k[1]] else 0
+                for it in labs:
+                    for cand in (it['line'] + d, it['line']):
+                        if cand in lines and not want[(k[0], k[1], cand, k[2])]:
+                            want[(k[0], k[1], cand, k[2])].append(it)
+                            break
+        for qual, line, desc, ap in gens:
             key = (fname, qual, line, desc)
             if key not in want or not want[key]:
                 continue
@@ -53,7 +79,7 @@ def build_variants():
                 continue
             it = want[key].pop(0)
             out.append((it, fname[:-3], code))
-    missing = sum(len(v) for v in want.values())
+    missing = len(labels) - len(out)
     return out, missing
 
 
